@@ -152,7 +152,7 @@ case = st.fixed_dictionaries({"doc": docs.document(dups=False),
 
 def small_docs():
     """Bounded-exhaustive: one paragraph of 1..2 fields over 4 bodies x final newline x one op."""
-    bodies = [" v\n", "\n c\n", " v\n# ic\n\tc\n", "v\n"]
+    bodies = [" v\n", "\n c\n", " v\n# ic\n\tc\n", "v\n", " v \t\n"]
     ops = [["set", 0, 0, "n", 1], ["set", 0, 1, "n\n c2", 0], ["add", 0, "New", "n"],
            ["set", 0, 1, "n", 0, "view-noresolve"], ["set", 0, 1, "n\n c", 0, "raw"], ["set", 0, 0, "n", 0, "simple"],
            ["setbad", 0, 1, "n\nunindented", 0], ["setbad", 0, 0, "n\n\n c", 2, "view"],
@@ -243,13 +243,13 @@ def same_assignment_twice():
 
 def sources(tier):
     if tier == "quick":
-        return [Enum("small-docs", small_docs, "1-2 paragraphs x 4 bodies^2 x 8 ops (+ second op)"),
+        return [Enum("small-docs", small_docs, "1-2 paragraphs x 5 bodies^2 x 17 ops (+ second op)"),
                 Enum("read-edit-readd", read_edit_readd, "blind histories: read (4 forms x 3 key forms) then delete/replace/clear then add, 3 fields x 2 endings"),
                 Enum("near-identical-assignments", near_identical_assignments, "15 (held text, new value) pairs differing only in a leading newline, trailing blanks, markers or inner lines x comment x position x ending x 5 routes x 3 key forms"),
                 Enum("near-identical-assignments", near_identical_assignments, "15 (held text, new value) pairs differing only in a leading newline, trailing blanks, markers or inner lines x comment x position x ending x 5 routes x 3 key forms"),
             Enum("same-assignment-twice", same_assignment_twice, "the same field set to the same value in two paragraphs (4 values x 4 routes) then six follow-ups, with and without comments"),
                 Hyp("doc-histories", case, 400, shards=8)]
-    return [Enum("small-docs", small_docs, "1-2 paragraphs x 4 bodies^2 x 8 ops (+ second op)"),
+    return [Enum("small-docs", small_docs, "1-2 paragraphs x 5 bodies^2 x 17 ops (+ second op)"),
             Enum("read-edit-readd", read_edit_readd, "blind histories: read (4 forms x 3 key forms) then delete/replace/clear then add, 3 fields x 2 endings"),
             Enum("near-identical-assignments", near_identical_assignments, "15 (held text, new value) pairs differing only in a leading newline, trailing blanks, markers or inner lines x comment x position x ending x 5 routes x 3 key forms"),
             Enum("same-assignment-twice", same_assignment_twice, "the same field set to the same value in two paragraphs (4 values x 4 routes) then six follow-ups, with and without comments"),
